@@ -7,7 +7,7 @@
   account rows and the action list of every run that ends normally (`err = none`: the price frame has a row for every bar,
   the triggers can be evaluated); what ends a run abnormally is part of the model and of the correspondence check.
 -/
-import Proofs.Lemmas.CoreActuator10
+import Proofs.Lemmas.CoreActuator11
 import Mathlib.Tactic.Ring
 namespace Demeter
 open Core
@@ -295,12 +295,12 @@ theorem C05_operations_gated_by_is_open (cfg : Cfg) (trigs : List Trig) (sc : Sc
 
 /-- a gated operation on a closed market is refused with "… is not open", records nothing and changes nothing -/
 theorem C05_closed_market_refuses (ts : Int) (hk : Hook) (op : OpSpec) (st : St) (s : MSt)
-    (hs : st.ms[op.m]? = some s) (hclosed : s.isOpen = false) :
+    (hs : st.ms[op.m]? = some s) (hclosed : s.isOpen = false) (hg : op.gated = true) :
     doOp ts hk op st = ([.opRej ts hk op.m op.tag true], st) ∧ recordedAct (.opRej ts hk op.m op.tag true) = none := by
   constructor
   · unfold doOp
     rw [hs]
-    simp [hclosed]
+    simp [hclosed, hg]
   · rfl
 
 /-! ### the resampled index -/
@@ -429,20 +429,64 @@ theorem C05_second_refresh_iff_has_update (cfg : Cfg) (sc : Script) (row : Nat) 
         (fun m => ((barParts cfg sc row ts st price).trace row ts).any (okEarly m))).map (fun m => (ts, m)) :=
   barTrace_second_refresh cfg sc row ts st price
 
+/-! ### when a run ends normally -/
+
+/-- **which runs the theorems above are about.**  A run ends normally if and only if the configuration passes `_check_backtest`
+    (interval ≥ 1 minute, a market, price range covering the default market's data), there is at least one bar, the (resampled)
+    price frame has a row for every bar of the index, and every installed trigger can be evaluated — nothing else can end it
+    (the scripted hooks catch the refusals of their own operations). -/
+theorem C05_run_ends_normally_iff (cfg : Cfg) (trigs : List Trig) (sc : Script) (hn : (trigs.map (·.id)).Nodup) :
+    (run cfg trigs sc).err = none ↔
+      checkBacktest cfg = none ∧ barIndex cfg ≠ [] ∧ (∀ t ∈ barIndex cfg, (priceAt cfg t).isSome) ∧ (∀ x ∈ trigs, WF x.k) := by
+  constructor
+  · intro h
+    obtain ⟨ts0, bars, hb, hc, _, hl, _, _, _, _⟩ := run_ok h
+    refine ⟨hc, by rw [hb]; simp, ?_, ?_⟩
+    · rw [hb]; exact runBars_prices cfg sc (ts0 :: bars) 0 _ hl
+    · have h3 := (core_run_trig cfg trigs sc h).2.2
+      rw [hb] at h3
+      by_contra hc'
+      have : ∃ x ∈ trigs, ¬ WF x.k := by
+        by_contra hcc
+        apply hc'
+        intro x hx
+        by_contra hne
+        exact hcc ⟨x, hx, hne⟩
+      exact (raises_iff_malformed ts0 bars trigs hn).mpr this h3
+  · rintro ⟨hc, hne, hp, hwf⟩
+    unfold run
+    rw [hc]
+    simp only []
+    cases hb : barIndex cfg with
+    | nil => exact absurd hb hne
+    | cons ts0 bars =>
+      simp only []
+      rw [hb] at hp
+      have hp0 := hp ts0 (List.mem_cons_self ..)
+      cases hpr : priceAt cfg ts0 with
+      | none => rw [hpr] at hp0; cases hp0
+      | some pr =>
+        simp only []
+        have ht : (runOps ts0 Hook.init sc.init ⟨(setAllFrom cfg ts0 0 0 cfg.markets).2, trigs, [], [], []⟩).2.trigs = trigs :=
+          (runOps_frame ts0 .init sc.init _).2.1
+        exact runBars_none cfg sc (ts0 :: bars) 0 _ hp (by rw [ht]; exact hwf)
+
 /-! ### non-vacuity: a concrete run (a minutely and an hourly market, raw 1-minute bars from 08:58) -/
 
 def Core.exCfg : Cfg :=
   { markets := [⟨[32280, 32340, 32400, 32460], true⟩, ⟨[32400], false⟩], priceIdx := [32280, 32340, 32400, 32460], Δ := 60, resample := false }
 
 def Core.exScript : Script :=
-  { init := [⟨0, true, "i"⟩], before := fun _ => [], fire := fun _ _ => [⟨1, true, "f"⟩], openCb := fun _ _ => [],
-    on := fun r => if r = 2 then [⟨1, true, "a"⟩, ⟨0, false, "b"⟩] else [⟨1, true, "c"⟩], after := fun _ => [],
+  { init := [⟨0, true, "i", true⟩], before := fun _ => [], fire := fun _ _ => [⟨1, true, "f", true⟩], openCb := fun _ _ => [],
+    on := fun r => if r = 2 then [⟨1, true, "a", true⟩, ⟨0, false, "b", true⟩] else [⟨1, true, "c", true⟩, ⟨1, true, "free", false⟩],
+    after := fun _ => [],
     upd := fun r m => if r = 3 ∧ m = 0 then ["liq"] else [] }
 
 example : (run Core.exCfg (install [("", .atTime 32400)]) Core.exScript).err = none := by decide
 
 example : (run Core.exCfg (install [("", .atTime 32400)]) Core.exScript).actions =
-    [⟨"i", 32280, 0⟩, ⟨"f", 32400, 1⟩, ⟨"a", 32400, 1⟩, ⟨"liq", 32460, 0⟩] := by decide
+    [⟨"i", 32280, 0⟩, ⟨"free", 32280, 1⟩, ⟨"free", 32340, 1⟩, ⟨"f", 32400, 1⟩, ⟨"a", 32400, 1⟩, ⟨"free", 32460, 1⟩,
+     ⟨"liq", 32460, 0⟩] := by decide
 
 example : (barIndex Core.exCfg).Pairwise (· < ·) := by decide
 
